@@ -161,6 +161,16 @@ fn first_use_key(op: &Op) -> String {
             ty,
             ..
         } => format!("wnc/{}", ty.name()),
+        Op::WFloatBreaks {
+            ty,
+            idx,
+            ..
+        } => format!("wfb/{}/{}", ty.name(), idx),
+        Op::PNanCustom {
+            ty,
+            idx,
+            ..
+        } => format!("pnc/{}/{}", ty.name(), idx),
     }
 }
 
